@@ -579,3 +579,45 @@ func c17StopDuringStart(p *load.Program, r *core.Report, appT *types.Named, star
 	}
 	r.Bad(rule, key, fn, p.Pos(tests[0].Pos()), inst, "the Stopping edge does not send an exit to every member")
 }
+
+// c10ExitNeverDropped: N8 — "every child terminates too" rests on the exit signal reaching the child.
+// The helper that delivers exit signals pushes into the target's Urgent queue, which is bounded when
+// the process has a mailbox limit; the callers (termination fan-outs) ignore its result. So the
+// refused-push edge must not simply return: it has to make sure the target goes down some other way
+// (Kill) or get the signal in regardless of the limit.
+func c10ExitNeverDropped(p *load.Program, r *core.Report, a *Anchors) {
+	rule := "C10.N8 exit-signal-not-dropped-on-a-full-mailbox"
+	r.Floor(rule, 1)
+	f := p.Func("node", a.NodeT.Obj().Name(), "sendExitMessage")
+	if f == nil {
+		r.Unk(rule, "C10.N8|sendExitMessage", "", "", "the exit delivery helper is found", "not found")
+		return
+	}
+	fn := fname(f)
+	key := "C10.N8|" + fn
+	inst := "an exit signal refused by a full Urgent queue still takes the target down (or is enqueued regardless of the limit)"
+	var push *ssa.Call
+	eachInstr(f, func(in ssa.Instruction) {
+		c, ok := in.(*ssa.Call)
+		if ok && c.Common().IsInvoke() && c.Common().Method.Name() == "Push" {
+			push = c
+		}
+	})
+	if push == nil {
+		r.Unk(rule, key, fn, p.Pos(f.Pos()), inst, "no push found")
+		return
+	}
+	_, refused, complete := boolEdges(push)
+	if !complete || len(refused) == 0 {
+		r.OK(rule, key, fn, p.Pos(push.Pos()), inst, "the push cannot be refused (its result is not tested)")
+		return
+	}
+	isRescue := func(in ssa.Instruction) bool {
+		return callsNamed(in, "Kill") || (in != ssa.Instruction(push) && callsNamed(in, "Push"))
+	}
+	if hit := reaches(edgePoints(refused), isRescue, isReturn); hit != nil {
+		r.Bad(rule, key, fn, p.Pos(push.Pos()), inst, "the refused-push edge returns an error at "+p.Pos(hit.Pos())+" which RouteTerminatePID / RouteNodeDown / the release of a failed start ignore: a child with a bounded mailbox whose Urgent queue is full (one queued Max-priority message while it is busy) never learns that its parent is gone and runs on as an orphan")
+	} else {
+		r.OK(rule, key, fn, p.Pos(push.Pos()), inst, "the refused edge kills the target / pushes regardless")
+	}
+}
